@@ -567,6 +567,15 @@ func (g *Global) sweepUnits() []*Unit {
 	return us
 }
 
+func unprovedOKPre(bl baseline, name string) bool {
+	for _, n := range bl.Unproved {
+		if n == name {
+			return true
+		}
+	}
+	return false
+}
+
 func readJSON(path string, v any) error {
 	b, err := os.ReadFile(path)
 	if err != nil {
@@ -690,6 +699,28 @@ func cmdCheck(args []string) int {
 		}
 	}
 
+	// second chance for obligations the solvers gave up on (not refuted): run them again, one at a time, with a
+	// longer time limit, so that machine load cannot turn a slow proof into an alarm
+	if !*updateBaseline {
+		for _, r := range results {
+			for _, o := range r.Obls {
+				if o.Cover || o.Status != "undecided" || unprovedOKPre(bl, o.Name) {
+					continue
+				}
+				if r.Unit.Opts["sweep"] && !sweepClaim[o.Name] {
+					continue
+				}
+				res := solve(o.script(), timeout*4, nil)
+				if res.Status == "unsat" {
+					o.Result = res
+					o.Status = "discharged"
+				} else if res.Status == "sat" {
+					o.Result = res
+					o.Status = "failed"
+				}
+			}
+		}
+	}
 	total, discharged, covers := 0, 0, 0
 	var violations []string
 	var unproved, outside, notes, funcs, samples []string
@@ -775,6 +806,12 @@ func cmdCheck(args []string) int {
 			}
 			if *verbose {
 				fmt.Printf("  %-11s %-7s %5.2fs %s\n", o.Status, o.Result.Solver, o.Result.Seconds, o.Name)
+			}
+			if o.Status == "discharged" && *updateBaseline && o.Result.Seconds > 3.0 && r.Unit.MemoClass == "" {
+				// proofs that need more than 3 s on the unchanged tree are not claimed (they could time out under load)
+				newUnproved = append(newUnproved, o.Name)
+				unproved = append(unproved, o.Name+" (slow proof, not claimed)")
+				continue
 			}
 			if o.Status == "discharged" {
 				total++
